@@ -1,0 +1,9 @@
+//go:build !verif
+// +build !verif
+
+package onet
+
+// verifC15Point marks a point of the client-stream code (websocket.go,
+// processor.go) where the verification harness can pause a routine. Without
+// the build tag "verif" it is an empty function that the compiler inlines away.
+func verifC15Point(string, interface{}) {}
